@@ -106,7 +106,7 @@ def formats : List Format := [
   ⟨"mac", (Fmt.mac 58).run, (Fmt.mac 58).run⟩,
   ⟨"macdash", (Fmt.mac 45).run, (Fmt.mac 45).run⟩,
   ⟨"base64", Fmt.base64.run, Fmt.base64.run⟩,
-  ⟨"base64url", Fmt.base64url.run, Fmt.base64url.run⟩,
+  ⟨"base64url", Fmt.base64url.run, Parsers.goBase64URLLen⟩,
   ⟨"hex", Fmt.hex.run, Fmt.hex.run⟩,
   ⟨"uuid", (Fmt.uuid none).run, (Fmt.uuid none).run⟩,
   ⟨"uuidv4", (Fmt.uuid (some 4)).run, (Fmt.uuid (some 4)).run⟩,
@@ -120,6 +120,7 @@ def formats : List Format := [
 
 structure Live where
   fmt : Format
+  kind : String
   vals : List Dfa
   pats : List Dfa
 
@@ -127,7 +128,7 @@ def mkLive : List (String × Live) :=
   formats.filterMap fun f =>
     match Gen.table.lookup f.name with
     | none => none
-    | some e => some (f.name, { fmt := f, vals := e.vals.map (buildDfa · []), pats := e.pats.map (buildDfa · []) })
+    | some e => some (f.name, { fmt := f, kind := e.kind, vals := e.vals.map (buildDfa · []), pats := e.pats.map (buildDfa · []) })
 
 def hexVal (c : Char) : Option Nat :=
   if '0' ≤ c ∧ c ≤ '9' then some (c.toNat - 48)
@@ -152,7 +153,9 @@ def handle (lives : List (String × Live)) : List String → String
   | [name, hx] =>
     match lives.lookup name, parseBytes hx with
     | some l, some bytes =>
-      let v := if l.vals.isEmpty then l.fmt.parser bytes else l.vals.all (·.run bytes)
+      -- regex-validated: the regex; parser-validated: the parser model and every regex it also requires
+      let v := if l.kind.startsWith "regex:" then l.vals.all (·.run bytes)
+               else l.vals.all (·.run bytes) && l.fmt.parser bytes
       let p := l.pats.all (·.run bytes)
       let s := l.fmt.spec bytes
       s!"{b2s v}{b2s p} {b2s s}{b2s s}"
@@ -228,7 +231,7 @@ def pathTo (nodes : Array (PN S E × Nat × Nat)) (i : Nat) : List Nat := Id.run
     j := p
   return acc
 
-def mkCert (S E : Spec) (specText exclText reText jobName : String) (r0 : Re) : Outcome := Id.run do
+def mkCert (S E : Spec) (specText exclText reText jobName fmtName : String) (r0 : Re) : Outcome := Id.run do
   -- 1. search for a distinguishing string over all bytes
   let dAll := buildDfa r0 S.support
   match explore S E dAll dAll.reps with
@@ -279,7 +282,7 @@ def mkCert (S E : Spec) (specText exclText reText jobName : String) (r0 : Re) : 
       "/-\n  GENERATED by driver_c20 --emit-cert from Gen/Regexes.lean — do not edit.\n" ++
       s!"  Bisimulation certificate: {reText} against {specText} (excluded region: {exclText}).\n" ++
       s!"  {states.size} derivative states, {nodes.size} product states.\n-/\n" ++
-      "import Gozod.Model.FormatSpec\nimport Gozod.Gen.Regexes\nnamespace Gozod.Gen\nopen Gozod\n\n" ++
+      s!"import Gozod.Model.FormatSpec\nimport Gozod.Gen.Re_{fmtName}\nnamespace Gozod.Gen\nopen Gozod\n\n" ++
       s!"noncomputable def cert_{jobName} : Cert ({specText}) ({exclText}) where\n  D := {dTxt}\n  tbl := {tTxt}\n  tree := {tree}\n\n" ++
       s!"theorem cert_{jobName}_ok : Cert.check {reText} cert_{jobName} = true := by decide +kernel\n\nend Gozod.Gen\n"
     return .cert text states.size nodes.size
@@ -288,8 +291,14 @@ structure Job where
   name : String
   run : Unit → Outcome
 
+/-- the format a regenerated term `val_<fmt>` / `pat_<fmt>` belongs to -/
+def fmtOf (reText : String) : String := (reText.drop 4).toString
+
 def job (name : String) (S : Spec) (specText reText : String) (r0 : Re) : Job :=
-  ⟨name, fun _ => mkCert S Spec.never specText "Spec.never" reText name r0⟩
+  ⟨name, fun _ => mkCert S Spec.never specText "Spec.never" reText name (fmtOf reText) r0⟩
+
+def jobE (name : String) (S E : Spec) (specText exclText reText : String) (r0 : Re) : Job :=
+  ⟨name, fun _ => mkCert S E specText exclText reText name (fmtOf reText) r0⟩
 
 def lookupRe (name : String) (which : Nat) (pat : Bool) : Re :=
   match Gen.table.lookup name with
@@ -312,7 +321,9 @@ def jobs : List Job := [
   job "cidrv4" Fmt.cidrv4 "Fmt.cidrv4" "pat_cidrv4" (lookupRe "cidrv4" 0 true),
   job "isodate" Fmt.isoDateQ "Fmt.isoDateQ" "pat_isodate" (lookupRe "isodate" 0 true),
   job "isodatetime" (Fmt.isoDateTimeQ false) "Fmt.isoDateTimeQ false" "pat_isodatetime" (lookupRe "isodatetime" 0 true),
-  job "isodatetime_optsec" (Fmt.isoDateTimeQ true) "Fmt.isoDateTimeQ true" "pat_isodatetime" (lookupRe "isodatetime" 0 true)]
+  job "isodatetime_optsec" (Fmt.isoDateTimeQ true) "Fmt.isoDateTimeQ true" "pat_isodatetime" (lookupRe "isodatetime" 0 true),
+  jobE "isodatetime_partial" (Fmt.isoDateTimeQ false) Fmt.isoDateTimeNoSecQ "Fmt.isoDateTimeQ false" "Fmt.isoDateTimeNoSecQ" "pat_isodatetime" (lookupRe "isodatetime" 0 true),
+  jobE "base64url_partial" Fmt.base64url Fmt.base64urlBadLen "Fmt.base64url" "Fmt.base64urlBadLen" "pat_base64url" (lookupRe "base64url" 0 true)]
 
 def hexOf (s : List Nat) : String :=
   if s.isEmpty then "-" else
